@@ -9,6 +9,7 @@
 (*   Read   key allowed allow    after a mutation: the allow set and the    *)
 (*                               validator's answer for key                 *)
 (*   Done   allow        the refresh returned                               *)
+(*   Worker w store allow   worker process w finished its start-up          *)
 (* The target list is computed here from the store: the p-tagged keys of    *)
 (* the events matching the configured query, plus the static whitelist.     *)
 (***************************************************************************)
@@ -38,6 +39,11 @@ TraceNext ==
               /\ bad' = bad \cup {<<n, l>> : n \in
                     (IF D!ReadOK([key |-> Line.key, allowed |-> Line.allowed, old |-> old, new |-> new, busy |-> TRUE]) THEN {} ELSE {"C16_NoEmptyWindow"})
                     \cup (IF Line.allowed = (Line.allow = {} \/ Line.key \in Line.allow) THEN {} ELSE {"C16_ValidatorReadsList"})}
+         [] Line.a = "Worker" ->
+              \* worker process w has started (web.start_mainprocess_tasks returned, its first refresh is over): every worker
+              \* keeps its own copy of the lists, and each copy must be the exact list
+              /\ UNCHANGED <<allow, old, new, pc, reads>>
+              /\ bad' = bad \cup {<<n, l>> : n \in IF Line.allow = D!Full(TargetOf(Line.store)) THEN {} ELSE {"C16_EveryWorkerHasLists"}}
          [] Line.a = "Done" ->
               /\ allow' = Line.allow /\ pc' = "idle"
               /\ UNCHANGED <<old, new, reads>>
